@@ -394,18 +394,23 @@ type VerifyCase struct {
 func genVerifyCase(t *rapid.T) VerifyCase {
 	d := genData(t, "d")
 	return VerifyCase{Data: d, Cuts: genCuts(t, "cut", len(d)),
-		Source:   rapid.SampledFrom([]string{"field256", "field512", "best256", "best512", "bestboth", "hasher256", "hasher512"}).Draw(t, "source"),
+		Source:   rapid.SampledFrom([]string{"field256", "field512", "best256", "best512", "bestboth", "hasher256", "hasher512", "hashermd5", "hashersha1"}).Draw(t, "source"),
 		Recorded: rapid.SampledFrom([]string{"true", "true", "other", "nibble", "nibble", "truncated-even", "truncated-odd", "otheralgo", "upper"}).Draw(t, "recorded"),
 		Which:    rapid.IntRange(0, 127).Draw(t, "which")}
 }
 
 var specC12Verify = Register(&Spec[VerifyCase]{
 	Prop: "C12", Name: "verify",
-	Rule: "(content, recorded hash) pairs; the entry comes from a Checksums-Sha256 / Checksums-Sha512 field parsed into []SHA256FileHash / []SHA512FileHash, from control.BestChecksums with only the 256 field, only the 512 field or both present (via Checksums()), or from FileHashFromHasher(sha256|sha512); the recorded hash is the true digest, the digest of other content, one flipped nibble, truncated (even / odd length), the other algorithm's digest of the same content, or upper-case hex. Oracle: the entry's Algorithm is that of the field it came from; writing the content in chunks and Close() returns nil iff digest_{entry algorithm}(content) == recorded hash (a malformed hex string may already be rejected by Verifier()). md5/sha1 entries are outside Verifier()'s domain (it terminates the process) and are not generated. Non-trivial: hash wrong in exactly one nibble, right under the wrong algorithm, or true with content in >= 2 chunks; distinct by case.",
+	Rule: "(content, recorded hash) pairs; the entry comes from a Checksums-Sha256 / Checksums-Sha512 field parsed into []SHA256FileHash / []SHA512FileHash, from control.BestChecksums with only the 256 field, only the 512 field or both present (via Checksums()), or from FileHashFromHasher over any of the four hashers (md5, sha1, sha256, sha512); the recorded hash is the true digest, the digest of other content, one flipped nibble, truncated (even / odd length), the other algorithm's digest of the same content, or upper-case hex. Oracle: the entry's Algorithm is that of the field it came from; writing the content in chunks and Close() returns nil iff digest_{entry algorithm}(content) == recorded hash (a malformed hex string may already be rejected by Verifier()). An entry built from an md5 or sha1 hasher is an entry built from a hasher like any other (Verifier() used to end the process with log.Fatalf for it - F52); md5/sha1 entries parsed from Files / Checksums-Sha1 fields are not named by the statement and not generated. Non-trivial: hash wrong in exactly one nibble, right under the wrong algorithm, or true with content in >= 2 chunks; distinct by case.",
 	Check: func(c VerifyCase, r *Recorder) error {
 		algo := "sha256"
-		if c.Source == "field512" || c.Source == "best512" || c.Source == "hasher512" {
+		switch c.Source {
+		case "field512", "best512", "hasher512":
 			algo = "sha512"
+		case "hashermd5":
+			algo = "md5"
+		case "hashersha1":
+			algo = "sha1"
 		}
 		trueHex := trueDigest(algo, c.Data)
 		rec := trueHex
@@ -428,11 +433,7 @@ var specC12Verify = Register(&Spec[VerifyCase]{
 		case "truncated-odd":
 			rec = trueHex[:len(trueHex)-1-2*(c.Which%8)]
 		case "otheralgo":
-			if algo == "sha256" {
-				rec = trueDigest("sha512", c.Data)
-			} else {
-				rec = trueDigest("sha256", c.Data)
-			}
+			rec = trueDigest(map[string]string{"sha256": "sha512", "sha512": "sha256", "md5": "sha1", "sha1": "md5"}[algo], c.Data)
 		case "upper":
 			rec = strings.ToUpper(trueHex)
 		}
